@@ -62,3 +62,21 @@ h!(c01_input_coin_predicate_l8_l0, 40, roundtrip(Input::coin_predicate(utxo(), a
 h!(c01_input_message_coin_predicate_l7_l1, 40, roundtrip(Input::message_coin_predicate(addr(), addr(), kani::any(), Nonce::from(b32()), kani::any(), bytes::<7>(), bytes::<1>())));
 h!(c01_input_message_data_signed_l9, 40, roundtrip(Input::message_data_signed(addr(), addr(), kani::any(), Nonce::from(b32()), kani::any(), bytes::<9>())));
 h!(c01_input_message_data_predicate_l1_l8_l7, 40, roundtrip(Input::message_data_predicate(addr(), addr(), kani::any(), Nonce::from(b32()), kani::any(), bytes::<1>(), bytes::<8>(), bytes::<7>())));
+
+// message predicates with an EMPTY predicate_data (the variant is selected by the predicate alone)
+h!(c01_input_message_coin_predicate_l8_l0, 40, roundtrip(Input::message_coin_predicate(addr(), addr(), kani::any(), Nonce::from(b32()), kani::any(), bytes::<8>(), bytes::<0>())));
+h!(c01_input_message_data_predicate_l1_l1_l0, 40, roundtrip(Input::message_data_predicate(addr(), addr(), kani::any(), Nonce::from(b32()), kani::any(), bytes::<1>(), bytes::<1>(), bytes::<0>())));
+
+// Policies: every subset of the six policy types (symbolic mask), symbolic values; maturity and
+// expiration are block heights (u32), the documented validity of the decode side.
+h!(c01_policies, 40, {
+    use fuel_tx::policies::PolicyType;
+    let mut p = Policies::new();
+    if kani::any() { p.set(PolicyType::Tip, Some(kani::any())); }
+    if kani::any() { p.set(PolicyType::WitnessLimit, Some(kani::any())); }
+    if kani::any() { p.set(PolicyType::Maturity, Some(kani::any::<u32>() as u64)); }
+    if kani::any() { p.set(PolicyType::MaxFee, Some(kani::any())); }
+    if kani::any() { p.set(PolicyType::Expiration, Some(kani::any::<u32>() as u64)); }
+    if kani::any() { p.set(PolicyType::Owner, Some(kani::any())); }
+    roundtrip(p)
+});
